@@ -137,12 +137,20 @@ def split_tuple(s):
     return out
 
 
-def tlc(scratch, module, cfg, env=None, workers=1, timeout=600, heap="3g", extra=None, simulate=None, gc=2):
+def tlc(scratch, module, cfg, env=None, workers=1, timeout=600, heap="3g", extra=None, simulate=None, gc=2, mode=None):
     """Run TLC on spec/<module>.tla with spec/<cfg>; returns TlcResult. Runs in the spec directory read-only
     (metadir in scratch)."""
     scratch.n += 1
     md = scratch.sub("md%d_%d" % (os.getpid(), scratch.n) + "_" + str(threading.get_ident()) + "_" + str(time.time_ns()))
-    cmd = ["timeout", str(timeout), "java", "-XX:+UseParallelGC", "-XX:ParallelGCThreads=%d" % gc, "-Xmx" + heap,
+    if mode is None:
+        mode = "mc" if workers > 1 else "short"
+    if mode == "short":
+        # single-worker generation / trace validation: C1-only JIT and the serial collector use about half
+        # the CPU of the defaults, which matters when 16 JVMs run side by side
+        jvm = ["-XX:+UseSerialGC", "-XX:TieredStopAtLevel=1"]
+    else:
+        jvm = ["-XX:+UseParallelGC", "-XX:ParallelGCThreads=%d" % gc]
+    cmd = ["timeout", str(timeout), "java"] + jvm + ["-Xmx" + heap,
            "-Xss64m", "-cp", JAR, "tlc2.TLC", "-workers", str(workers), "-metadir", md,
            "-config", os.path.join(SPEC, cfg)]
     if simulate:
@@ -195,7 +203,7 @@ def split_trace(path, parts, scratch, prefix, boundary=lambda ev: ev.get("first"
     cur = -1
     with open(path) as f:
         for lineno, line in enumerate(f, 1):
-            is_first = '"first":true' in line
+            is_first = '"first":true' in line or '"first":' not in line
             if is_first or cur < 0:
                 cur = (cur + 1) % parts
             outs[cur].write(line)
